@@ -536,3 +536,9 @@ def run(ctx):
 
     r = ctx.rule("R6", "a compiled tape never reads a spill slot it did not store first (allocator protocol), so stale slots are unobservable", 21)
     ctx.guarded(r, AP_.r4_protocol)
+    # simplify() writes its result into recycled storage: everything the result reports must come from the parent
+    # and this simplification, never from what the storage held (C10j-1: the recycled storage's own variable map)
+    from .. import simplify as S_
+
+    r = ctx.rule("R7", "simplify's result takes nothing from the recycled storage it is written into: op accounting, loop tail and the parent's variable map", 6)
+    ctx.guarded(r, S_.r_tail)
